@@ -241,6 +241,12 @@ pub fn map_parser<'a, O2, F: Fn(&'a [u8]) -> IResult<&'a [u8], &'a [u8]>, G: Fn(
 
 // nom::combinator::map(p, f): run p, apply f to its output; remainder and errors unchanged.  [combinator/mod.rs]
 // ASSUMED here; OBLIGATION of Kani harness shim_map.
+pub open spec fn map_rel<'a, O1, O2, G: Fn(O1) -> O2>(r0: IResult<&'a [u8], O1>, r: IResult<&'a [u8], O2>, f: G) -> bool {
+    match r0 {
+        Ok((rem, o1)) => (match r { Ok((rem2, o2)) => rem2 == rem && f.ensures((o1,), o2), Err(_) => false }),
+        Err(e) => r == Err::<(&'a [u8], O2), Err<Error<&'a [u8]>>>(e),
+    }
+}
 #[verifier::external_body]
 pub fn map<'a, O1, O2, F: Fn(&'a [u8]) -> IResult<&'a [u8], O1>, G: Fn(O1) -> O2>(p: F, f: G) -> (h: impl Fn(&'a [u8]) -> IResult<&'a [u8], O2>)
     requires forall|i: &'a [u8]| #[trigger] p.requires((i,)), forall|x: O1| #[trigger] f.requires((x,)),
@@ -251,6 +257,10 @@ pub fn map<'a, O1, O2, F: Fn(&'a [u8]) -> IResult<&'a [u8], O1>, G: Fn(O1) -> O2
                 Ok((rem, o1)) => exists|o2: O2| #[trigger] f.ensures((o1,), o2) && r == Ok::<(&'a [u8], O2), Err<Error<&'a [u8]>>>((rem, o2)),
                 Err(e) => r == Err::<(&'a [u8], O2), Err<Error<&'a [u8]>>>(e),
             },
+        // the same statement for a function-like parser value p (no existential): the result on i is p's result with
+        // an output that satisfies the closure's contract on p's output (closure values in the extracted code are
+        // total: their bodies are verified and return)
+        is_fun(p) ==> (is_fun(h) && forall|i: &'a [u8]| map_rel(fun_of(p)(i), #[trigger] fun_of(h)(i), f)),
 { |i: &'a [u8]| -> IResult<&'a [u8], O2> { unimplemented!() } }
 
 // the integer readers as functions (same status as the other fun_of facts: ASSUMED; Kani shim_be checks be_post)
